@@ -17,7 +17,6 @@
 From RV Require Export Grammar.Model.
 Local Open Scope N_scope.
 
-Definition py_re_space (c : N) : bool := memN c py_re_space_chars.   (* \s *)
 Definition py_isspace (c : N) : bool := memN c py_isspace_chars.     (* str.isspace, per character *)
 
 (* compat.decodeUnicodeEscape: _turtle_escape_pattern.sub(...) - leftmost,
@@ -59,12 +58,13 @@ Fixpoint rd_unquote (fuel : nat) (l : str) : option str :=
   end.
 Definition unquote (l : str) : option str := rd_unquote (length l) l.
 
-(* r_uriref = LT ( [^:]+ : [^\s DQUOTE LT GT]* ) GT (see nt_uriref_src): [^:]+ stops at the first colon (no shorter
-   prefix is followed by a colon), [^\s DQUOTE <>]* stops at the first excluded
+(* r_uriref = LT ( [^:]+ : [^\x00-\x20 DQUOTE LT GT]* ) GT (see nt_uriref_src; since 4d2427e4 the second class excludes
+   the characters up to U+0020 instead of Python's \s): [^:]+ stops at the first colon (no shorter
+   prefix is followed by a colon), the second class stops at the first excluded
    character (no shorter run is followed by '>'): no backtracking can succeed
    where the greedy scan fails. *)
 Definition uri_tail_char (c : N) : bool :=
-  negb (py_re_space c || (c =? 34) || (c =? 60) || (c =? 62)).
+  negb ((c <=? 32) || (c =? 34) || (c =? 60) || (c =? 62)).
 Definition rd_uriref_raw (l : str) : option (str * str) :=
   match l with
   | c :: r =>
@@ -277,14 +277,13 @@ Definition rd_spec_ok (c : rcase) (o : robs) : bool :=
 
 (* finding triggers, computed on the text with the strict sub-parsers:
    6 C05f  a blank node label with a character outside ASCII
-   7 C05g  an IRIREF with a raw character that Python's \s matches (U+0085, U+00A0, U+2028, ...)
    8 C05h  an IRIREF none of whose colons is written as such (all are UCHARs)
-   (5 C05e, white space required after subject and predicate in N-Triples, has been repaired: 4cbe7459) *)
+   (repaired: 5 C05e, white space required after subject and predicate in N-Triples, 4cbe7459;
+    7 C05g, raw Unicode white space in an IRIREF, 4d2427e4) *)
 Definition raw_of (l r : str) : str := firstn (length l - length r) l.
-Definition wide_space (c : N) : bool := py_re_space c && negb (c <=? 32).
 Definition iri_raw_kf (raw : str) : N :=
   (* raw = '<' ... '>' ; the reader's [^:]+: needs some colon written as such *)
-  if existsb wide_space raw then 7 else if memN 58 raw then 0 else 8.
+  if memN 58 raw then 0 else 8.
 (* l: the input where a subject / predicate / graph label / datatype IRIREF starts *)
 Definition node_kf (l : str) : N :=
   if starts_with 60 l then
